@@ -46,6 +46,16 @@ func extractorImpl(p *Prog, v ssa.Value) (*ssa.Function, *ssa.MakeClosure) {
 	return nil, nil
 }
 
+// isCutPrefixOf: t is the tuple of strings.CutPrefix(variable, <const>).
+func isCutPrefixOf(t ssa.Value, variable ssa.Value) bool {
+	c, ok := t.(*ssa.Call)
+	if !ok || !ccIs(c.Common(), "strings", "CutPrefix") || len(c.Common().Args) != 2 || c.Common().Args[0] != variable {
+		return false
+	}
+	_, isC := constString(c.Common().Args[1])
+	return isC
+}
+
 func runC19(p *Prog, r *Report) {
 	ne := p.Func("utils", "NewExtractor")
 	if ne == nil {
@@ -73,6 +83,9 @@ func runC19(p *Prog, r *Report) {
 			} else if c, ok := other.(*ssa.Call); ok && ccIs(c.Common(), "strings", "TrimPrefix") && c.Common().Args[0] == ssa.Value(variable) && cs == "" {
 				pf, _ := constString(c.Common().Args[1])
 				name = "emptySuffix(" + pf + ")"
+			} else if ex, ok := other.(*ssa.Extract); ok && ex.Index == 0 && cs == "" && isCutPrefixOf(ex.Tuple, variable) {
+				pf, _ := constString(ex.Tuple.(*ssa.Call).Common().Args[1])
+				name = "emptySuffix(" + pf + ")"
 			} else {
 				return "", false
 			}
@@ -83,6 +96,12 @@ func runC19(p *Prog, r *Report) {
 		}
 		if c, ok := cond.(*ssa.Call); ok && ccIs(c.Common(), "strings", "HasPrefix") && c.Common().Args[0] == ssa.Value(variable) {
 			if pf, ok := constString(c.Common().Args[1]); ok {
+				return "prefix(" + pf + ")", true
+			}
+		}
+		// after, found := strings.CutPrefix(variable, "<const>"): found <=> HasPrefix
+		if ex, ok := cond.(*ssa.Extract); ok && ex.Index == 1 && isCutPrefixOf(ex.Tuple, variable) {
+			if pf, ok := constString(ex.Tuple.(*ssa.Call).Common().Args[1]); ok {
 				return "prefix(" + pf + ")", true
 			}
 		}
@@ -284,6 +303,10 @@ func c19Header(p *Prog, r *Report, fn *ssa.Function, mc *ssa.MakeClosure, ret *s
 		}
 		if tc, ok := v.(*ssa.Call); ok && ccIs(tc.Common(), "strings", "TrimPrefix") && tc.Common().Args[0] == variable {
 			pf, _ := constString(tc.Common().Args[1])
+			return pf == "request.header."
+		}
+		if ex, ok := v.(*ssa.Extract); ok && ex.Index == 0 && isCutPrefixOf(ex.Tuple, variable) {
+			pf, _ := constString(ex.Tuple.(*ssa.Call).Common().Args[1])
 			return pf == "request.header."
 		}
 		return false
